@@ -5,6 +5,9 @@
    bits) plus, when the lock field changes, the abstract acquire / release step of that thread; dequeues / wake-ups of
    transferred waiters by nsync_mu_unlock_slow_ become [MuDeq] / [MuWakeSt]; every successful P / V on a thread's
    semaphore is mirrored (model P / V steps, [CIntP] inside an acquisition, [EnvV]).  The clock follows the trace.
+   The coupling the model assumes of the unlocker (ghost [owed]: the V follows the store waiting = 0) is CHECKED on the
+   trace: after a [MuWakeSt] of thread x for waiter u the next semaphore event x completes must be the V on u's semaphore,
+   x must not clear another transferred waiter's flag before it, and at the end of the trace nothing is owed.
    The outcome of nsync_sem_wait_with_cancel_ is inferred (0: the P CAS; non-zero: the next cv.c site is line 253) and
    every returned code announced by the scenario (notes "ret" / "retn") is compared with the model's ghost log.
    Snapshots (S lines) compare the cv queue whenever the cv spinlock is free, and require the model's part of the
@@ -45,6 +48,7 @@ let () =
   let wait_info : (int, int * bool) Hashtbl.t = Hashtbl.create 16 in
   let waitn_info : (int, int) Hashtbl.t = Hashtbl.create 16 in
   let futex_seen : (int, bool) Hashtbl.t = Hashtbl.create 16 in
+  let pending_post : (int, int) Hashtbl.t = Hashtbl.create 16 in       (* unlocker thread -> waiter it owes a post *)
   let last_ev = ref "" in
   let fail msg = raise (Mismatch (Printf.sprintf "%s (at trace event: %s)" msg !last_ev)) in
   let nat t = nat_of_int t in
@@ -140,6 +144,12 @@ let () =
         match (try Some (Hashtbl.find thread_of_blk blk) with Not_found -> None) with
         | None -> incr skipped
         | Some u ->
+          (match (try Some (Hashtbl.find pending_post t) with Not_found -> None) with
+           | Some u' ->
+             if u' <> u then fail (Printf.sprintf "unlocker %d cleared the waiting flag of thread %d but its next V is on thread %d" t u' u);
+             (* (the model's [owed] is a count: an earlier V on u's semaphore by another thread may already have paid it) *)
+             Hashtbl.remove pending_post t; cover "sem:V-owed"
+           | None -> ());
           (match CvReplay.vv_target !w (nat t) with
            | Some o when int_of_nat o = u ->
              (match thr t CNormal with EvV _ -> cover "sem:V" | _ -> fail "implementation completed V, model elsewhere")
@@ -158,7 +168,10 @@ let () =
         if fn = "nsync_remove_from_mu_queue_" && e.kind = "cas" && e.ok then begin
           if mem_list u (CvModel.muq !w) then env (MuDeq (nat u)) "MuDeq" else env (EnvRc (nat u)) "EnvRc"
         end else if fn = "nsync_mu_unlock_slow_" && e.kind = "store" && e.b = 0 then begin
-          if mem_list u (CvModel.mwake !w) then env (MuWakeSt (nat u)) "MuWakeSt" else incr skipped
+          if mem_list u (CvModel.mwake !w) then begin
+            if Hashtbl.mem pending_post e.tid then fail "unlocker clears a second transferred waiter's flag before posting the first";
+            env (MuWakeSt (nat u)) "MuWakeSt"; Hashtbl.replace pending_post e.tid u end
+          else incr skipped
         end else incr skipped in
   (* ---- an event of cv.c / of nsync_spin_test_and_set_ on the cv word ---- *)
   let cv_event (e : event) fn ord =
@@ -166,6 +179,7 @@ let () =
     let key = fid fn + ord in
     if fid fn < 0 then fail ("function outside CvModel: " ^ fn);
     cover (string_of_int key);
+    if Hashtbl.mem pending_post t then fail "a thread that owes a post (unlocker) is in cv.c before posting";
     (* entry of a call *)
     if cls t = 0 then begin
       match key with
@@ -297,6 +311,15 @@ let () =
    | End_of_file -> ()
    | Mismatch m -> Printf.printf "MISMATCH %s\n" m; exit 1);
   if int_of_z (CvModel.dead_touch !w) <> 0 then begin Printf.printf "MISMATCH model counts an access to a dead nsync_wait_n record\n"; exit 1 end;
+  if Hashtbl.length pending_post <> 0 then begin Printf.printf "MISMATCH an unlocker cleared a waiting flag and never posted\n"; exit 1 end;
+  for u = 0 to 15 do
+    if int_of_z (CvReplay.owed_of !w (nat u)) <> 0 then begin Printf.printf "MISMATCH the model still owes thread %d a post at the end of the trace\n" u; exit 1 end
+  done;
+  (* every nsync_cv_signal / broadcast call that released the cv spinlock (sites 306 / 404) is in the model's log of completed calls *)
+  let nrel = (try Hashtbl.find covered "306" with Not_found -> 0) + (try Hashtbl.find covered "404" with Not_found -> 0) in
+  if nrel <> int_of_nat (CvReplay.wlog_len !w) then begin
+    Printf.printf "MISMATCH %d signal/broadcast calls got past the early exit, the model logged %d completed calls\n" nrel (int_of_nat (CvReplay.wlog_len !w)); exit 1 end;
+  Hashtbl.replace covered "wakeops" (int_of_nat (CvReplay.wlog_len !w));
   let cov = Hashtbl.fold (fun k v acc -> Printf.sprintf "%s:%d" k v :: acc) covered [] in
   let edg = Hashtbl.fold (fun k v acc -> Printf.sprintf "%s:%d" k v :: acc) edges [] in
   Printf.printf "OK steps=%d skipped=%d snapshots=%d env=%d sites=%s edges=%s\n" !steps !skipped !snaps !envs
